@@ -52,7 +52,7 @@ class StartupProp(Prop):
             # failure there: both errors then surface together); the LTS has no notion of such
             # ties, so these runs are judged by the monitor only
             return None
-        ev = [dict(e) for e in impl["trace"]]
+        ev = [dict(e) for e in impl["trace"] if e["l"][0] != "probeFailed"]     # (the monitor's business)
         if impl["outcome"]["k"] == "timeout":
             # the watchdog firing is internal: it happened before the first component saw cancellation
             idx = next((n for n, e in enumerate(ev) if e["l"][0] in ("cancelSeen", "raised")), len(ev))
